@@ -296,3 +296,71 @@ fn c28_set_nth_changes_only_addressed_element() {
         Err(_) => assert!(false, "set-nth gives a list"),
     }
 }
+
+// ---- list.index, complete body, at a mock value type.  The closure is a
+// `match` over css::Value (list / map / anything else); a css::Value inside
+// a Vec or OrderMap is out of CBMC's reach, so inside this module `Value`
+// is a small enum with the SAME constructors the range uses (List, Map,
+// Null, scalar(), ==) over u8 elements: listed abstraction.  OrderMap and
+// ListSeparator are the real ones. ----
+mod index_at_mock {
+    use crate::ordermap::OrderMap;
+    use crate::value::ListSeparator;
+    /// (elements are plain u8: a recursive mock — lists of values — is out of
+    /// CBMC's reach as well)
+    #[derive(Clone, PartialEq, Debug)]
+    pub(super) enum Value {
+        List(Vec<u8>, Option<ListSeparator>, bool),
+        Map(OrderMap<u8, u8>),
+        Null,
+        Atom(u8),
+        Position(usize),
+    }
+    impl Value {
+        pub(super) fn scalar(n: usize) -> Self {
+            Value::Position(n)
+        }
+    }
+    /// an element of a list is == to a value when the value is that atom
+    impl PartialEq<Value> for u8 {
+        fn eq(&self, o: &Value) -> bool {
+            matches!(o, Value::Atom(x) if x == self)
+        }
+    }
+//@range file=rsass/src/sass/functions/list.rs fn=create_module after="def!(f, index(list, value), |s| " until=");\n    def!(f, is_bracketed"
+//@  header: pub(super) fn snippet_index_body(list_arg: Value, value_arg: Value) -> Result<Value, ()>
+//@  subst: s.get(name!(list))? => list_arg
+//@  resubst: s\.get\(name!\(value\)\)\? => value_arg.clone()
+//@end
+}
+use index_at_mock::Value as MV;
+
+/// C28: maps act as lists of key/value pairs: list.index finds the entry
+/// whose key and value are == to a SPACE-separated two-element list, and
+/// only that — `(k, v)` and `k / v` are different values from `(k v)`.
+#[kani::proof]
+#[kani::unwind(6)]
+fn c28_index_in_map_matches_space_pairs_only() {
+    let map = || {
+        let mut m = crate::ordermap::OrderMap::new();
+        m.insert(1u8, 2u8);
+        m.insert(3u8, 4u8);
+        MV::Map(m)
+    };
+    let pair = |sep| MV::List(vec![3, 4], sep, false);
+    assert!(index_at_mock::snippet_index_body(map(), pair(Some(ListSeparator::Space))) == Ok(MV::Position(2)), "index(map, (k v)) is the entry's position");
+    assert!(index_at_mock::snippet_index_body(map(), pair(Some(ListSeparator::Comma))) == Ok(MV::Null), "(k, v) is not == to the pair (k v)");
+    assert!(index_at_mock::snippet_index_body(map(), pair(Some(ListSeparator::Slash))) == Ok(MV::Null), "k / v is not == to the pair (k v)");
+}
+/// C28: … and in a plain list, index gives the first == position; a
+/// non-list value acts as a one-element list.
+#[kani::proof]
+#[kani::unwind(6)]
+fn c28_index_whole_body_on_lists() {
+    let l = MV::List(vec![5, 7, 5], Some(ListSeparator::Comma), false);
+    assert!(index_at_mock::snippet_index_body(l.clone(), MV::Atom(5)) == Ok(MV::Position(1)), "index: FIRST position");
+    assert!(index_at_mock::snippet_index_body(l.clone(), MV::Atom(7)) == Ok(MV::Position(2)));
+    assert!(index_at_mock::snippet_index_body(l, MV::Atom(9)) == Ok(MV::Null), "index: null when absent");
+    assert!(index_at_mock::snippet_index_body(MV::Atom(9), MV::Atom(9)) == Ok(MV::Position(1)), "a single value is a one-element list");
+    assert!(index_at_mock::snippet_index_body(MV::Atom(9), MV::Atom(8)) == Ok(MV::Null));
+}
